@@ -1606,13 +1606,16 @@ func buildStubs() map[string]stubFn {
 		return ex.nilError()
 	}
 
-	// ---- unsafe string<->bytes helpers of olric (same bytes; the aliasing itself is not modelled)
+	// ---- unsafe string<->bytes helpers of olric: BytesToString yields a string that shares the slice's memory (later
+	// writes to those bytes show through, see StrV.src); StringToBytes yields the same bytes (writing through it is
+	// not modelled)
 	m[olricPath+"/internal/util.BytesToString"] = func(ex *Exec, c *frame, fn *ssa.Function, a []Value) Value {
 		sl, _ := a[0].(*SliceV)
 		if sl.isNil() {
 			return ex.emptyStr
 		}
-		return &StrV{b: ex.bytesOf(sl), num: sl.num}
+		h := *sl
+		return &StrV{b: ex.bytesOf(sl), num: sl.num, src: &h}
 	}
 	m[olricPath+"/internal/util.StringToBytes"] = func(ex *Exec, c *frame, fn *ssa.Function, a []Value) Value {
 		st := a[0].(*StrV)
